@@ -259,7 +259,10 @@ def _report(mod, pid, tier, seed, cfgs, results, errors, wall, nproc):
     bad_cuts = {k: v for k, v in cuts.items() if k not in allowed_cuts}
 
     reproduced = [c for c in cands if c.get('reproduced')]
-    unreproduced = [c for c in cands if not c.get('reproduced') and not c.get('tentative')]
+    repro_keys = set((c['config'], c['check']) for c in reproduced)
+    # an alternative witness of an obligation that already has a reproducing one is not an open question
+    unreproduced = [c for c in cands if not c.get('reproduced') and not c.get('tentative')
+                    and not (c.get('alternative') and (c['config'], c['check']) in repro_keys)]
     tentative_unreproduced = [c for c in cands if not c.get('reproduced') and c.get('tentative')]
 
     lines = []
